@@ -311,7 +311,7 @@ def run(rep: Report, prog: Program, tier: str) -> None:
 
     def descriptor(node: ast.expr, depth: int = 0) -> tuple[frozenset, bool | None]:
         """(parameter kinds kept, required filter: True = only without default, False = only with default, None = both)"""
-        if depth > 4:
+        if depth > 12:
             raise AnalysisError("_normalize_strategy: parameter-list definitions nest too deeply")
         if isinstance(node, ast.Name):
             vals = assigns.get(node.id, [])
